@@ -1,7 +1,7 @@
 (* Reasoning about MiniC executions: fuel monotonicity, one-step unfolding equations, the rule
    for counted loops, association-list lemmas, and the bridge between the Z-valued cells of
    MiniC and the N-valued bytes/words of the hand-written models. *)
-From Coq Require Import ZArith NArith List String Bool Lia.
+From Coq Require Import ZArith NArith List String Bool Lia Ascii Arith.
 From Wencry Require Import MiniC.
 Import ListNotations.
 Local Open Scope Z_scope.
@@ -374,3 +374,58 @@ Proof.
   apply bind_Ok in H. destruct H as [r1 [H1 H]]. rewrite (exec_prog_extend _ _ _ _ H1). cbn [bind]. exact H.
 Qed.
 End Extend.
+
+(* ---------------- names of heap objects: "#" ++ decimal digits, injective ---------------- *)
+Section HeapNames.
+Local Open Scope nat_scope.
+(* digits *)
+Definition digit_of (a : ascii) : nat := nat_of_ascii a - 48.
+Fixpoint parse_nat (acc : nat) (s : string) : nat :=
+  match s with EmptyString => acc | String a r => parse_nat (10 * acc + digit_of a) r end.
+Definition go := (fix go (k : nat) (n : nat) (acc : string) {struct k} : string :=
+     match k with
+     | O => acc
+     | S k' => let d := String (Ascii.ascii_of_nat (48 + Nat.modulo n 10)) acc in
+               if Nat.eqb (Nat.div n 10) 0 then d else go k' (Nat.div n 10) d
+     end).
+Lemma nat_string_go : forall n, nat_string n = go (S n) n EmptyString.
+Proof. reflexivity. Qed.
+Lemma digit_ascii : forall d, d < 10 -> digit_of (ascii_of_nat (48 + d)) = d.
+Proof. intros d H. unfold digit_of. rewrite nat_ascii_embedding by lia. lia. Qed.
+(* parse (go k n acc) = value of n's digits followed by acc's digits *)
+Fixpoint pow10len (s : string) : nat := match s with EmptyString => 1 | String _ r => 10 * pow10len r end.
+Lemma parse_app : forall s a, parse_nat a s = a * pow10len s + parse_nat 0 s.
+Proof.
+  induction s as [|c r IH]; intros a; cbn [parse_nat pow10len].
+  - lia.
+  - rewrite IH. rewrite (IH (10 * 0 + digit_of c)). lia.
+Qed.
+Lemma parse_go : forall k n acc, n < k -> parse_nat 0 (go k n acc) = n * pow10len acc + parse_nat 0 acc.
+Proof.
+  induction k as [|k IH]; intros n acc Hk; [lia|].
+  cbn [go]. destruct (Nat.eqb (n / 10) 0) eqn:E.
+  - apply Nat.eqb_eq in E. cbn [parse_nat]. rewrite parse_app.
+    rewrite digit_ascii by (apply Nat.mod_upper_bound; lia).
+    assert (n < 10) by (apply Nat.div_small_iff in E; lia). rewrite Nat.mod_small by lia.
+    replace (10 * 0 + n) with n by lia. reflexivity.
+  - apply Nat.eqb_neq in E. rewrite IH.
+    + cbn [pow10len parse_nat]. rewrite (parse_app acc).
+      rewrite digit_ascii by (apply Nat.mod_upper_bound; lia).
+      pose proof (Nat.div_mod n 10 ltac:(lia)) as D.
+      replace (10 * 0 + n mod 10) with (n mod 10) by lia.
+      set (p := pow10len acc). set (q := parse_nat 0 acc). set (a := n / 10) in *. set (b := n mod 10) in *.
+      rewrite D. nia.
+    + assert (0 < n) by (destruct n; [cbn in E; congruence|lia]).
+      assert (n / 10 < n) by (apply Nat.div_lt; lia). lia.
+Qed.
+Lemma parse_nat_string : forall n, parse_nat 0 (nat_string n) = n.
+Proof. intros n. rewrite nat_string_go, parse_go by lia. cbn. lia. Qed.
+Lemma nat_string_inj : forall a b, nat_string a = nat_string b -> a = b.
+Proof. intros a b H. rewrite <- (parse_nat_string a), <- (parse_nat_string b), H. reflexivity. Qed.
+
+Definition heap_name (n : nat) : string := String "#" (nat_string n).
+Lemma heap_name_inj : forall a b, heap_name a = heap_name b -> a = b.
+Proof. intros a b H. injection H as H. apply nat_string_inj. exact H. Qed.
+Lemma heap_name_eq : forall n, ("#" ++ nat_string n)%string = heap_name n.
+Proof. reflexivity. Qed.
+End HeapNames.
